@@ -1232,18 +1232,31 @@ fn oracle_combo<C: AnsCombo>(rng: &mut Rng, w: u32, s: u32, bps: &[(u32, Vec<u32
                 rep.eval("C01");
                 rep.count("C01.batch");
                 if o1 != o2 || (coder.bulk(), coder.state()) != (twin.bulk(), twin.state()) {
-                    rep.fail("C01", format!("{} | raw => batch form returned {} and left ({} {:x}); the per-symbol loop returns {} and leaves ({} {:x})", desc, o1,
+                    let msg = format!("{} | raw => batch form returned {} and left ({} {:x}); the per-symbol loop returns {} and leaves ({} {:x})", desc, o1,
                         show_list(coder.bulk().iter().map(|&x| to_u128(x))), to_u128(coder.state()), o2,
-                        show_list(twin.bulk().iter().map(|&x| to_u128(x))), to_u128(twin.state())));
+                        show_list(twin.bulk().iter().map(|&x| to_u128(x))), to_u128(twin.state()));
+                    rep.fail("C01", msg.clone());
+                    // a batch that fails part-way (impossible symbol, Err item) must leave the coder as the
+                    // successful prefix left it: that is also C09's clause
+                    if o2 != "ok" { rep.fail("C09", msg); }
                     break;
                 }
             } else if r == 13 {
                 // reload (C01) – export / re-import must be the identity on behaviour
+                desc.push_str(" | reload");
                 let v = coder.clone().into_compressed().unwrap();
-                coder = AnsCoder::from_compressed(v).unwrap();
+                let shown: Vec<u128> = v.iter().map(|&x| to_u128(x)).collect();
+                coder = match AnsCoder::from_compressed(v) {
+                    Ok(c) => c,
+                    Err(_) => {
+                        let msg = format!("{} => the exported words {} are refused by from_compressed", desc, show_list(shown));
+                        rep.fail("C01", msg.clone());
+                        rep.fail("C06", msg);
+                        break;
+                    }
+                };
                 let v = twin.clone().into_compressed().unwrap();
                 twin = AnsCoder::from_compressed(v).unwrap();
-                desc.push_str(" | reload");
                 rep.count("C01.reload");
             } else {
                 // inspections (C08, C18)
@@ -1269,14 +1282,21 @@ fn oracle_combo<C: AnsCombo>(rng: &mut Rng, w: u32, s: u32, bps: &[(u32, Vec<u32
                     rep.fail("C08", format!("{} => view {} but finishing now gives {}", desc, show_list(shown), show_list(expected)));
                     break;
                 }
-                if coder.num_words() != expected.len() || coder.num_bits() != expected.len() * w as usize || coder.is_empty() != expected.is_empty() {
+                // the size queries are compared with what exporting returned *before* the inspection; if the
+                // inspection itself damaged the coder, that is reported below as C08/C01, not as C18
+                let intact = (coder.bulk(), coder.state()) == (twin.bulk(), twin.state());
+                if intact && (coder.num_words() != expected.len() || coder.num_bits() != expected.len() * w as usize || coder.is_empty() != expected.is_empty()) {
                     rep.fail("C18", format!("{} | nw | nb | empty => num_words {} num_bits {} is_empty {} but export has {} words", desc, coder.num_words(), coder.num_bits(), coder.is_empty(), expected.len()));
                     break;
                 }
             }
             // C08: inspected coder and twin must stay identical
             if (coder.bulk(), coder.state()) != (twin.bulk(), twin.state()) {
-                rep.fail("C08", format!("{} => inspected coder diverged from uninspected twin", desc));
+                let msg = format!("{} | raw => inspected coder holds {} {:x} but its uninspected twin holds {} {:x}", desc,
+                    show_list(coder.bulk().iter().map(|&x| to_u128(x))), to_u128(coder.state()), show_list(twin.bulk().iter().map(|&x| to_u128(x))), to_u128(twin.state()));
+                rep.fail("C08", msg.clone());
+                // the same history is a C01 history: everything pushed before the inspection must still pop
+                rep.fail("C01", msg);
                 break;
             }
         }
@@ -1612,6 +1632,22 @@ fn oracle_combo<C: AnsCombo>(rng: &mut Rng, w: u32, s: u32, bps: &[(u32, Vec<u32
             d4.push_str(&format!(" | dec {:x} {:x} {}", b, p, show_list(cdf.clone())));
             let o = guarded(|| C::dec(&mut coder, b, p, &cdf).unwrap());
             rep.eval("C10");
+            // the number of payload bits is exact at every moment, not only at the two ends: it is the bit
+            // length of (bulk words, state) below the state's marker bit
+            {
+                let st = to_u128(coder.state());
+                let expect = if st == 0 { 0 } else { coder.bulk().len() * w as usize + (128 - st.leading_zeros() as usize) - 1 };
+                rep.eval("C04");
+                rep.eval("C18");
+                let got = guarded(|| coder.num_valid_bits());
+                if got != Ok(expect) {
+                    let msg = format!("{} | nvb => {:?} but the coder holds {} payload bits ({} bulk words, state {:x})", d4, got, expect, coder.bulk().len(), st);
+                    rep.fail("C04", msg.clone());
+                    rep.fail("C18", msg);
+                    ok = false;
+                    break;
+                }
+            }
             match o {
                 Ok(o) => {
                     let sym = parse_hex(&o).map(|x| x as usize);
